@@ -177,3 +177,71 @@ func (le *lastEffect) call(c *ast.CallExpr, depth int) int {
 	le.memo[fn] = e
 	return e
 }
+
+// commentLinesKeepEmpty (R-CONST/commentlines): a comment is a sequence of
+// lines, each printed behind `//`; an empty line inside it is a line of the
+// comment (a paragraph break, printed as a bare `//`). The text has to be cut
+// at every newline — strings.Split — and only the empty piece behind the final
+// newline dropped. A splitter that swallows empty pieces (strings.Fields,
+// FieldsFunc) joins paragraphs: the re-parsed comment differs.
+func commentLinesKeepEmpty(r *core.Run) {
+	r.Rule("R-CONST/commentlines", "in protoprint every function that cuts a comment string of a SourceLocation (or a string parameter that callers fill from one) into lines to print behind `//` uses strings.Split(…, \"\\n\") — never strings.Fields / FieldsFunc, which drop the empty lines inside a comment")
+	pk := r.P.Pkg(printRel)
+	if pk == nil {
+		r.Fatal("anchor: package %s not found", printRel)
+		return
+	}
+	info := pk.TypesInfo
+	n := 0
+	seenSplit := map[*ast.CallExpr]bool{}
+	core.AllFuncDecls(pk, func(fd *ast.FuncDecl) {
+		if fd.Body == nil {
+			return
+		}
+		// functions that print `//`-prefixed lines: they mention the constant "//" (alone or as a prefix of a format)
+		slashes := false
+		ast.Inspect(fd.Body, func(m ast.Node) bool {
+			if bl, ok := m.(*ast.BasicLit); ok {
+				if s, ok := core.ConstString(info, bl); ok && strings.HasPrefix(s, "//") {
+					slashes = true
+				}
+			}
+			return true
+		})
+		if !slashes {
+			return
+		}
+		// the function and the same-package helpers it calls (a shared `splitCommentLines`)
+		core.InspectTree(pk, fd.Body, func(m ast.Node) bool {
+			c, ok := m.(*ast.CallExpr)
+			if !ok || seenSplit[c] {
+				return true
+			}
+			seenSplit[c] = true
+			fd := r.P.EnclosingDecl(c.Pos())
+			if fd == nil {
+				return true
+			}
+			name := core.CalleeName(info, c)
+			switch name {
+			case "strings.Split", "strings.SplitN", "strings.SplitAfter", "strings.Fields", "strings.FieldsFunc":
+			default:
+				return true
+			}
+			n++
+			o := r.Add("R-CONST/commentlines", printRel+"."+core.FuncName(fd)+" | "+name, c.Pos(), "cutting a comment into lines")
+			switch name {
+			case "strings.Split":
+				if sep, ok := core.ConstString(info, c.Args[1]); ok && sep == "\n" {
+					o.Auto("strings.Split at every newline: empty lines are kept")
+				} else {
+					o.Fail("the comment is not cut at \"\\n\"")
+				}
+			default:
+				o.Fail("%s drops the empty pieces: an empty `//` line inside a comment (a paragraph break) disappears from the printed file, and the re-parsed descriptor has another comment", name)
+			}
+			return true
+		})
+	})
+	r.Floor("R-CONST/commentlines", 1, "commentLines")
+}
